@@ -7,6 +7,7 @@ import (
 	"bytes"
 	"fmt"
 	"strings"
+	"sync"
 	"unicode/utf8"
 
 	"github.com/octohelm/gengo/pkg/gengo"
@@ -299,8 +300,33 @@ func (c snipCase) Line() string {
 	return b.String()
 }
 
+// a writer that lives as long as the process: every case is also rendered through it, after whatever the cases
+// before it did to it (renderings that panicked half way included), followed by a marker snippet
+var (
+	usedWriterMu  sync.Mutex
+	usedWriterBuf = bytes.NewBuffer(nil)
+	usedWriter    = gengo.NewSnippetWriter(usedWriterBuf, namer.NameSystems{"raw": namer.NewRawNamer("example.com/self", namer.NewDefaultImportTracker())})
+)
+
+func renderThroughUsedWriter(s snippet.Snippet) string {
+	usedWriterMu.Lock()
+	defer usedWriterMu.Unlock()
+	usedWriterBuf.Reset()
+	out := guard(func() string { usedWriter.Render(s); return "ok " + hx(usedWriterBuf.String()) })
+	usedWriterBuf.Reset()
+	marker := guard(func() string { usedWriter.Render(snippet.Block("<marker>")); return usedWriterBuf.String() })
+	if marker != "<marker>" {
+		return out + " then-marker=" + hx(marker)
+	}
+	return out
+}
+
 func (c snipCase) Run() string {
-	return guard(func() string { return "ok " + hx(renderSnippet(c.T.build().(snippet.Snippet))) })
+	fresh := guard(func() string { return "ok " + hx(renderSnippet(c.T.build().(snippet.Snippet))) })
+	if used := renderThroughUsedWriter(c.T.build().(snippet.Snippet)); used != fresh {
+		return "used-writer-differs fresh=" + fresh + " used=" + used
+	}
+	return fresh
 }
 
 func (c snipCase) InDomain() bool {
@@ -579,9 +605,9 @@ func init() {
 	register(&Property{ID: "C09", Streams: []*Stream{
 		{
 			Name: "tree", Quick: 40000, Thorough: 400000,
-			New: func() Case { return &snipCase{} },
-			Gen: func(r *Rng, i int) Case { return snipCase{genSnip(r, 1+r.Intn(3))} },
-			Rule: "random snippet trees (T / Sprintf / Snippets / Comment / GoDirective / Block, depth ≤ 3, bindings among empty, literal, nested and placeholder-looking arguments, raw Go values under %v/%T) rendered through a real SnippetWriter; non-trivial = contains a placeholder, verb, sequence, comment or directive; distinct by tree",
+			New:  func() Case { return &snipCase{} },
+			Gen:  func(r *Rng, i int) Case { return snipCase{genSnip(r, 1+r.Intn(3))} },
+			Rule: "random snippet trees (T / Sprintf / Snippets / Comment / GoDirective / Block, depth ≤ 3, bindings among empty, literal, nested and placeholder-looking arguments, raw Go values under %v/%T) rendered through a real SnippetWriter; non-trivial = contains a placeholder, verb, sequence, comment or directive; distinct by tree; every tree is rendered through a fresh writer and through one writer that lives as long as the process (so after renderings that panicked half way), each time followed by a marker snippet: both must write the same bytes and the marker must come out alone",
 		},
 		{
 			Name: "malformed", Quick: 4000, Thorough: 40000,
